@@ -1335,3 +1335,45 @@ def tok_13(ctx, rep):
             rep.ob('TOK-13', TOK, f.qual, 'indentation decision `%s`' % head(d.stmt), True)
     rep.stat('tok13_decisions', len(decisions))
     rep.minimum('TOK-13', 2)
+
+
+# ---------------------------------------------------------------------------------------------------------------
+# TOK-14  "first line" means the first line
+def tok_14(ctx, rep):
+    """Three independent seeds (rt2-C09, rt13-C01, rt13-C03) put a fast path with `continue` above the block that handles
+    the first line (BOM, start column): the block then runs for the first line that is *not* fast-pathed."""
+    rep.rule('TOK-14', 'the first-line block of tokenize_lines (byte order mark, start column) is reached by the first '
+                       'iteration of the line loop on every path: no `continue` / end of the loop body before the test of '
+                       'the first-line flag')
+    f = ctx.prog.func(TOK, 'tokenize_lines')
+    # the flag by role: the plain name tested by an `if` whose body looks at the BOM constant and clears the flag
+    flag = None
+    block = None
+    for n in walk_own(f.node):
+        if isinstance(n, ast.If) and isinstance(n.test, ast.Name):
+            body_txt = ' '.join(norm(b, 400) for b in n.body)
+            clears = any(isinstance(b, ast.Assign) and any(isinstance(t, ast.Name) and t.id == n.test.id for t in b.targets)
+                         and isinstance(b.value, ast.Constant) and b.value.value is False for b in ast.walk(n))
+            if clears and 'BOM' in body_txt.upper():
+                flag, block = n.test.id, n
+    if flag is None:
+        raise AnalysisError('TOK-14: the first-line block (flag test + BOM handling + flag cleared) was not found in tokenize_lines')
+    loop = block
+    while loop is not None and not isinstance(loop, ast.For):
+        loop = getattr(loop, '_parent', None)
+    if loop is None:
+        raise AnalysisError('TOK-14: the first-line block is not inside the line loop')
+    cfg = ctx.cfg(f)
+    n1 = [n for n in cfg.nodes if n.kind == 'next' and n.stmt is loop]
+    n0 = [n for n in cfg.nodes if n.kind == 'next0' and n.stmt is loop]
+    tests = [n for n in cfg.nodes if n.kind == 'test' and n.stmt is block and isinstance(n.ast, ast.Name) and n.ast.id == flag]
+    if not n1 or not n0 or not tests:
+        raise AnalysisError('TOK-14: loop head / flag test not found in the control-flow graph')
+    body_entry = [s for s, lab in n0[0].succ if lab == 'next']
+    inside = {id(x) for b in loop.body for x in ast.walk(b)}
+    from ..paths import find_path, path_text
+    p = find_path(cfg, body_entry, lambda n: n is n1[0] or n is cfg.exit, lambda n: n in tests)
+    rep.ob('TOK-14', TOK, f.qual, 'first-line block `if %s:` reached before the line loop goes round' % flag, p is None,
+           'a line can be finished (continue / end of the body) before the first-line block has run: the BOM and the start '
+           'column are then applied to a later line; path: %s' % (' -> '.join(path_text(p)) if p else ''),
+           witness=path_text(p) if p else None)
